@@ -161,8 +161,9 @@ func vBlockUntil(p *bool) {
 		time.Sleep(time.Millisecond)
 	}
 }
-func vPreemptions() int { return 0 }
-func vYieldAll()        { time.Sleep(200 * time.Microsecond) }
-func vStop(why string)  { panic(vViolation{"stop:" + why}) }
+func vPreemptions() int        { return 0 }
+func vYieldAll()               { time.Sleep(200 * time.Microsecond) }
+func vStop(why string)         { panic(vViolation{"stop:" + why}) }
+func vInconclusive(why string) { panic(vViolation{"inconclusive:" + why}) }
 
 var vBaseGoroutines int
